@@ -86,10 +86,37 @@ class GenFacts:
         return self._paths[name]
 
     def helpers(self):
+        """Helpers whose emissions are spliced into their callers before rules are applied: the three small
+        ones of today's tree, plus any generator method that did not exist when the rules were written and is a
+        *leaf* (no loops, yields only instructions / other inlined helpers / accessor methods) - e.g. a guard
+        extracted into its own method by a refactor."""
+        if getattr(self, '_helpers', None) is not None:
+            return self._helpers
+        names = [n for n in INLINE_HELPERS if n in self.methods]
+        from .canon import roles
+        known = {k.split('::CodeGen.', 1)[1] for k in roles() if '::CodeGen.' in k} | \
+            {'goto', 'mark', 'un_op_reg_arg', 'arith_op_reg_arg', 'get_expr_value', 'pop_value', 'push_value', 'reset_ap', 'pop'}
+        changed = True
+        while changed:
+            changed = False
+            for n, fn in self.gen_methods.items():
+                if n in names or n in known or not roles():
+                    continue
+                if any(isinstance(x, (ast.For, ast.While)) for x in ast.walk(fn)):
+                    continue
+                ok = True
+                for x in ast.walk(fn):
+                    if isinstance(x, ast.YieldFrom) and isinstance(x.value, ast.Call):
+                        f = src(x.value.func)
+                        if f.startswith('self.') and f[5:] not in names:
+                            ok = False
+                if ok:
+                    names.append(n)
+                    changed = True
         h = {}
-        for name in INLINE_HELPERS:
-            if name in self.methods:
-                h[f'self.{name}'] = (self.methods[name], self.paths(name))
+        for name in names:
+            h[f'self.{name}'] = (self.methods[name], self.paths(name))
+        self._helpers = h
         return h
 
     def inlined(self, name):
